@@ -34,6 +34,8 @@ type c14Scenario struct {
 	Ops     []c01Op              `json:"ops"`
 	Faults  bool                 `json:"consul_faults"`
 	Monitor int                  `json:"service_monitors"`
+	// Interleave: the goroutines makeConfig starts per service are scheduled statement by statement
+	Interleave bool `json:"makeconfig_interleaved"`
 }
 
 var c14Names = []string{"bad", "svc with space", "sv\"c", "ünï", "a\tb", "bad2", "web"}
@@ -117,7 +119,20 @@ func runC14(r *simcore.Run) {
 	nops := g.Range(2, 6)
 	goodN := ng
 	for i := 0; i < nops; i++ {
-		switch g.Intn(5) {
+		switch g.Intn(7) {
+		case 5, 6:
+			// the same registration comes back with different plain tags (harmless -> inexpressible or the reverse)
+			// (only adversarial instances: the well-formed ones stay well-formed)
+			src := simcore.Pick(g, sc.Poison)
+			in := src
+			in.Tags = nil
+			for _, t := range src.Tags {
+				if strings.HasPrefix(strings.TrimSpace(t), c01Prefix) {
+					in.Tags = append(in.Tags, t)
+				}
+			}
+			in.Tags = append(in.Tags, simcore.Pick(g, []string{"rel \"stable\"", "v2", "new\nline", "green", "comma,tag"}))
+			sc.Ops = append(sc.Ops, c01Op{Kind: "register", Inst: &in})
 		case 0:
 			in := c14GenPoison(g, sc.Nodes, np+i)
 			sc.Ops = append(sc.Ops, c01Op{Kind: "register", Inst: &in})
@@ -137,6 +152,7 @@ func runC14(r *simcore.Run) {
 		}
 	}
 	sc.Faults = g.Chance(20)
+	sc.Interleave = g.Chance(40)
 	// the 70000-character tag is abbreviated in the sample
 	sample := *sc
 	r.SetSample(c14Abbrev(sample))
@@ -162,6 +178,10 @@ func runC14(r *simcore.Run) {
 	ops = append(ops, sc.Ops...)
 	e.sc.FaultsEnabled = sc.Faults
 	e.start()
+	if sc.Interleave {
+		// the per-service goroutines of makeConfig interleave statement by statement
+		e.d.Sim.Activate("consul:*ServiceMonitor.makeConfig", "consul:*ServiceMonitor.serviceConfig")
+	}
 	next := 0
 	e.d.AddSource(func() []simcore.Event {
 		if next >= len(ops) {
